@@ -61,7 +61,7 @@ def run(ctx, replay=None):
         sc.run_step_part(ctx, f'holdables_{cname}', jobs, dict(comps=steps.COMPOSITIONS[cname], via='direct'), PREFIX)
     ctx.add_part('holdable family (custom holdable object Gem next to Key)', size=len(gfam))
     sc.random_big_part(ctx, PREFIX, 300 if ctx.quick else 20000, seed_offset=2)
-    sc.live_chain_part(ctx, PREFIX, 150 if ctx.quick else 5000, seed_offset=2)
+    sc.live_chain_part(ctx, PREFIX, 150 if ctx.quick else 1500, seed_offset=2)
     sc.mc_reach(ctx, ['InvInventory', 'InvDoorsStayDoors'])
     sc.apalache_lemmas(ctx, ['LocalityLemma', 'ExchangeLemma', 'HeldLemma'], modules=('MC_GVSym_5x5',) if ctx.quick else ('MC_GVSym_5x5', 'MC_GVSym_7x9'))
     sc.history_part(ctx, PREFIX, ['gv_keydoor.5x5.yaml', 'gv_keydoor.7x7.yaml', 'gv_dynamic_obstacles.5x5.yaml', 'gv_dynamic_obstacles.7x7.yaml'] if ctx.quick else [os.path.basename(x) for x in __import__('harness.config', fromlist=['x']).shipped_files()],
